@@ -1,10 +1,10 @@
 CONSTANTS Profiles <- P1
  SingleActive = 11
- EmptyActive = 5
+ EmptyActive = 4
  RepActive = 10
  RichActive = 3
- JointActive = 2
- OverrideLens = {0, 1, 2}
+ JointActive = 1
+ OverrideLens = {0, 2}
  Emit = TRUE
 SPECIFICATION Spec
 INVARIANTS SingleOK RepOK EmitCase
